@@ -287,3 +287,24 @@ MUTANTS += [
     ("c19_column_name_drops_package", SO, '    package_label = f"{cr.package}." if cr.package else ""', '    package_label = ""', ["C19"]),
     ("c19_results_filled_unknown", SO, "                df[column_name] = cr.results\n", "                df[column_name] = np.ma.filled(cr.results, 2)\n", ["C19"]),
 ]
+FX = "ioos_qc/config_creator/fx_parser.py"
+CC = "ioos_qc/config_creator/config_creator.py"
+MUTANTS += [
+    ("c20_eval_from_bottom", FX, "    val = evaluate_stack(exprStack[:], stats)", "    val = evaluate_stack(exprStack[::-1][:], stats)", ["C20"]),
+    ("c20_minus_is_add_in_opn", FX, '    "-": operator.sub,', '    "-": operator.add,', ["C20"]),
+    ("c20_operands_swapped", FX, "        op2 = evaluate_stack(s, stats)\n        op1 = evaluate_stack(s, stats)\n        return opn[op](op1, op2)", "        op1 = evaluate_stack(s, stats)\n        op2 = evaluate_stack(s, stats)\n        return opn[op](op1, op2)", ["C20"]),
+    ("c20_unary_minus_dropped_when_repeated", FX, "    for t in toks:\n        if t == \"-\":\n            exprStack.append(\"unary -\")\n        else:\n            break", "    for t in toks[:1]:\n        if t == \"-\":\n            exprStack.append(\"unary -\")\n        else:\n            break", ["C20"]),
+    ("c20_std_is_mean", FX, '    elif op == "std":\n        return stats["std"]', '    elif op == "std":\n        return stats["mean"]', ["C20"]),
+    ("c20_validator_prefix_match", CC, "                    token not in self.allowed_stats\n", "                    not any(token.startswith(a) for a in self.allowed_stats)\n", ["C20"]),
+    ("c20_validator_accepts_caret", CC, '        "/",\n    ]\n    allowed_groupings', '        "/",\n        "^",\n    ]\n    allowed_groupings', ["C20"]),
+    ("c20_subset_lat_exclusive", CC, "        lat_mask = np.logical_and(\n            ds[\"lat\"] >= bbox[1],\n            ds[\"lat\"] <= bbox[3],\n        )\n        lon_mask = np.logical_and(\n            ds[\"lon\"] >= bbox[0],\n            ds[\"lon\"] <= bbox[2],\n        )\n\n        # if there is no data", "        lat_mask = np.logical_and(\n            ds[\"lat\"] >= bbox[1],\n            ds[\"lat\"] < bbox[3],\n        )\n        lon_mask = np.logical_and(\n            ds[\"lon\"] >= bbox[0],\n            ds[\"lon\"] <= bbox[2],\n        )\n\n        # if there is no data", ["C20"]),
+    ("c20_span_min_max_swapped", CC, '            "suspect_span": [suspect_min, suspect_max],', '            "suspect_span": [suspect_max, suspect_min],', ["C20"]),
+    ("c20_stats_nanstd_ddof1", CC, '            "std": np.nanstd(subset),', '            "std": np.nanstd(subset, ddof=1),', ["C20"]),
+    ("c20_depth_level_1", CC, "var = ds[var_in_file][:, depth, lat_mask, lon_mask]", "var = ds[var_in_file][:, depth + 1, lat_mask, lon_mask]", ["C20"]),
+    ("c20_sum_zero_regress", CC, "        while np.ndim(subset) == 0:", "        while np.nansum(subset) == 0:", ["C20"]),
+    ("c20_eval_uses_stale_tail", FX, "    val = evaluate_stack(exprStack[:], stats)", "    val = evaluate_stack(exprStack[: max(len(exprStack) - (1 if len(exprStack) > 40 else 0), 1)], stats)", ["C20"]),
+]
+
+MUTANTS += [
+    ("c20_leftover_stack_is_error", FX, "    val = evaluate_stack(exprStack[:], stats)\n", "    s = exprStack[:]\n    val = evaluate_stack(s, stats)\n    if s:\n        raise Exception('unconsumed tokens')\n    del exprStack[:]\n", ["C20"]),
+]
